@@ -91,6 +91,70 @@ def oracle(site, A):
     return ('other-skip', [], {'kind': 'skip', 'next': 'same'})
 
 
+DOMAINS = {
+    'have_header': (True, False), 'input_stream': (True, False), 'id': ('match', 'other'), 'cmp': ('Less', 'Equal', 'Greater'),
+    'len_nonzero': (True, False), 'mgmt': (True, False), 'begin_len_ok': (True, False), 'have_body': (True, False),
+    'body': ('ok', 'UnknownRole', 'other_err'), 'id_nonzero': (True, False),
+    'decode': ('ok', 'UnknownVersion', 'UnknownRecordType', 'other_err'),
+    # `Stdout` stands for every record type the specification does not single out
+    'rtype': ('BeginRequest', 'AbortRequest', 'GetValues', 'Params', 'Stdin', 'Data', 'Stdout'),
+}
+INPUT_STREAM_TYPES = ('Stdin', 'Data')
+
+
+def consistent(A):
+    """Atoms are not independent: `is_input_stream()` is a function of the record type, and a record carrying the
+    request's own (non-zero) id is not a management record."""
+    rt, ins = A.get('rtype'), A.get('input_stream')
+    if rt is not None and ins is not None:
+        if rt in INPUT_STREAM_TYPES:
+            if not ins:
+                return False
+        elif isinstance(rt, str) and rt.startswith('other(not '):
+            excl = rt[len('other(not '):-1].split(',')
+            if ins and all(x in excl for x in INPUT_STREAM_TYPES):
+                return False
+        elif ins:
+            return False
+    if A.get('mgmt') and A.get('id') == 'match':
+        return False
+    return True
+
+
+def rtype_admits(rt, v):
+    if isinstance(rt, str) and rt.startswith('other(not '):
+        return v not in rt[len('other(not '):-1].split(',')
+    return rt == v
+
+
+def oracle_all(site, A, depth=0):
+    """The oracle's verdicts on every completion of the atoms a path left untested: a path that does not look at an
+    atom covers the whole cube of inputs differing in it, and is correct iff it is correct on each of them."""
+    rt = A.get('rtype')
+    if isinstance(rt, str) and rt.startswith('other(not '):
+        # a default arm covers each record type it does not exclude
+        out = []
+        for v in DOMAINS['rtype']:
+            if rtype_admits(rt, v):
+                B = dict(A)
+                B['rtype'] = v
+                if consistent(B):
+                    out += oracle_all(site, B, depth + 1)
+        return out
+    try:
+        return [(dict(A),) + oracle(site, A)]
+    except Need as e:
+        if depth > 6 or e.atom not in DOMAINS:
+            raise
+        out = []
+        for v in DOMAINS[e.atom]:
+            B = dict(A)
+            B[e.atom] = v
+            if consistent(B):
+                out += oracle_all(site, B, depth + 1)
+        return out
+
+
 LEAVES = {
     'header': {'short-header', 'unknown-version', 'decode-error', 'unknown-type', 'begin-bad-len', 'begin-short', 'begin-unknown-role',
                'begin-body-error', 'begin-null-id', 'begin-ok', 'get-values', 'other-skip'},
@@ -339,21 +403,22 @@ def r4_1_tables(rep, facts):
             if 'have_header' not in A and 'decode' not in A:
                 continue   # framing paths before the header is looked at (payload / padding handling)
             A.setdefault('have_header', True)
-            n += 1
             try:
-                leaf, exp_replies, exp_out = oracle(site, A)
+                cases = oracle_all(site, A)
             except Need as e:
                 rep.violation("R4.1", "%s/untested[%s]" % (site, e.atom),
                               "a dispatch path decides without testing `%s` (atoms seen: %s)" % (e.atom, A), body.loc())
                 continue
-            hit.add(leaf)
             got = outcome_stream(d) if site == 'stream' else outcome_request(d, site)
-            bad = compare(exp_replies, exp_out, d, got, site)
-            key = "%s/%s" % (site, leaf)
-            if bad:
-                rep.violation("R4.1", key, "; ".join(bad) + " (atoms %s)" % A, body.loc())
-            else:
-                rep.ok("R4.1", key, "%s => replies %s, outcome %s" % (A, [dict(t).get('ctor') for t in d.replies] or "none", exp_out['kind']), body.loc())
+            for (B, leaf, exp_replies, exp_out) in cases:
+                hit.add(leaf)
+                n += 1
+                bad = compare(exp_replies, exp_out, d, got, site)
+                key = "%s/%s" % (site, leaf)
+                if bad:
+                    rep.violation("R4.1", key, "; ".join(bad) + " (atoms %s%s)" % (A, "" if B == A else ", input class %s" % B), body.loc())
+                else:
+                    rep.ok("R4.1", key, "%s => replies %s, outcome %s" % (B, [dict(t).get('ctor') for t in d.replies] or "none", exp_out['kind']), body.loc())
         missing = LEAVES[site] - hit
         for m in sorted(missing):
             rep.violation("R4.1", "%s/%s/missing" % (site, m), "no path of the %s dispatch implements the specification case `%s`" % (site, m), body.loc())
